@@ -70,7 +70,8 @@ ASSUMPTIONS = {
     ],
     "C14": [
         "BOUNDED: variant_dist is checked for columns of length 3 only",
-        "not decided: MergeSkaArray::distance (rayon, collect_into_vec order), generic_modes::distance's pre-filter bookkeeping (rows removed by --min-freq are added to every pair's match count); of MergeSkaArray::new only the closure deciding which cells count as present is proved (lifted fragment), its hashbrown iteration and ndarray push_row are glue",
+        "head of generic_modes::distance: checked modularly - apply_filters is re-bound (name resolution in the harness module) to its contract on an abstract table of 3 rows (presence count, constant or not; a constant row is present in every sample), MergeSkaArray::distance is stubbed; 3 samples, --allow-ambiguous off; that the real apply_filters / filter meet that contract is C06 (apply_filters wrapper proof, bounded whole-body check of filter)",
+        "not decided: MergeSkaArray::distance (rayon, collect_into_vec order), the thread-pool set-up and the output loop of generic_modes::distance; of MergeSkaArray::new only the closure deciding which cells count as present is proved (lifted fragment), its hashbrown iteration and ndarray push_row are glue",
         "floating point compared exactly under CBMC's IEEE-754 model",
     ],
     "C15": [
